@@ -7,7 +7,9 @@ DESIGN.md section 7).  Two necessary conditions are decided by the solver:
      hash stubbed, depth 8;
  (2) non-degeneracy on the REAL fasthash64 (precise 64-bit multiplication, 8-byte symbolic keys): for row pairs (a, b)
      and widths W the solver exhibits two keys that collide in row a but not in row b; `unsat` would mean the rows are
-     functionally dependent."""
+     functionally dependent;
+ (3) sensitivity on the REAL fasthash64: for every byte position of keys of the listed lengths the solver exhibits two byte
+     values with different hashes; `unsat` = keys differing only there share their cell in EVERY row (replayed)."""
 import os
 import sys
 import time
@@ -169,11 +171,74 @@ def ob_independent(a, b, W, timeout_ms):
     return {"status": "proved", "stats": stats.as_dict(), "funcs": sorted(ex.funcs_encoded), "note": "witness keys confirmed on the jitted fasthash64"}
 
 
+def _ctx_bytes(L):
+    import random
+    rnd = random.Random(1000 + L)
+    return [rnd.randrange(256) for _ in range(L)]
+
+
+def ob_sensitive(L, timeout_ms):
+    """(3) every byte of a key influences the real fasthash64: for each position i of a key of length L the solver
+    exhibits two values of byte i (other bytes fixed, row seed i % 8) with different 64-bit hashes.  `unsat` means keys
+    differing only there own the same cell in every row (fully dependent rows for such pairs); replayed on a real sketch."""
+    stats = common.Stats()
+    from sketchnu import hashes
+    bs = [z3.BitVec(f"k{i}", 8) for i in range(L)]
+    sd = z3.BitVec("rowseed", 64)
+    ex = Executor(loop_bound=L // 4 + 8)
+    # multiplication uninterpreted: `unsat` (no influence for ANY multiplication function) is sound for the real bvmul,
+    # and every `sat` witness is confirmed below by running the two keys through the jitted hash
+    ex.uf_mul = True
+    outs = ex.call_dispatcher(hashes.fasthash64, State(), [SBytes(bs), Val(types.uint64, sd)])
+    if len(outs) != 1:
+        return {"status": "unknown", "stats": stats.as_dict(), "note": f"{len(outs)} outcomes"}
+    h = outs[0][1].t
+    funcs = sorted(ex.funcs_encoded)
+    ctx = _ctx_bytes(L)
+    alt = z3.BitVec("k_alt", 8)
+    for i in range(L):
+        sub = [(bs[j], z3.BitVecVal(ctx[j], 8)) for j in range(L) if j != i] + [(sd, z3.BitVecVal(i % DEPTH, 64))]
+        h1 = z3.simplify(z3.substitute(h, *sub))
+        h2 = z3.substitute(h1, (bs[i], alt))
+        r, m = common.z3check([bs[i] != alt, h1 != h2], timeout_ms, stats, label=f"fasthash64 len {L}: byte {i} influences the hash (row seed {i % DEPTH})")
+        if r == "unsat":
+            cex = {"kind": "insensitive-byte", "key_len": L, "pos": i, "context_hex": bytes(ctx).hex(), "row_seed": i % DEPTH}
+            return {"status": "cex", "stats": stats.as_dict(), "funcs": funcs, "cex": cex, "replay": replay(cex), "finding_key": f"insensitive-byte:len={L}"}
+        if r != "sat":
+            return {"status": "unknown", "stats": stats.as_dict(), "funcs": funcs, "note": f"{r} at byte {i}"}
+        k1 = bytes(ctx[:i] + [ev(m, bs[i])] + ctx[i + 1:])
+        k2 = bytes(ctx[:i] + [ev(m, alt)] + ctx[i + 1:])
+        if int(hashes.fasthash64(k1, i % DEPTH)) == int(hashes.fasthash64(k2, i % DEPTH)):
+            # the abstraction's witness is not one for the real multiplication: look for a concrete pair by evaluation
+            other = next((v for v in range(256) if v != k1[i] and int(hashes.fasthash64(bytes(ctx[:i] + [v] + ctx[i + 1:]), i % DEPTH)) != int(hashes.fasthash64(k1, i % DEPTH))), None)
+            if other is None:
+                cex = {"kind": "insensitive-byte", "key_len": L, "pos": i, "context_hex": bytes(ctx).hex(), "row_seed": i % DEPTH}
+                rp = replay(cex)
+                if rp["reproduced"]:
+                    return {"status": "cex", "stats": stats.as_dict(), "funcs": funcs, "cex": cex, "replay": rp, "finding_key": f"insensitive-byte:len={L}"}
+                return {"status": "unknown", "stats": stats.as_dict(), "funcs": funcs, "note": f"no witness pair for byte {i} on the jitted function, replay did not reproduce"}
+    return {"status": "proved", "stats": stats.as_dict(), "funcs": funcs, "note": f"{L} positions, each witness confirmed on the jitted fasthash64"}
+
+
 def replay(cex):
     """observable: in a probe sketch of the given width, the columns a key owns in two rows are always equal"""
     import numpy as np
     import random
     C = cmh.cm()
+    if cex["kind"] == "insensitive-byte":
+        ctx = list(bytes.fromhex(cex["context_hex"]))
+        i = cex["pos"]
+        fails = []
+        for (v1, v2) in ((0x01, 0xFE), (ctx[i] if i < len(ctx) else 0, (ctx[i] + 1) % 256 if i < len(ctx) else 1)):
+            k1, k2 = bytes(ctx[:i] + [v1] + ctx[i + 1:]), bytes(ctx[:i] + [v2] + ctx[i + 1:])
+            for w in (127, 64):
+                s = C.CountMinLinear(w, DEPTH)
+                for _ in range(5):
+                    s.add(k1)
+                est = int(s.query(k2))
+                if est >= 5:
+                    fails.append(f"width {w}: 5 adds of a {len(k1)}-byte key give estimate {est} for a different key never added (differs in byte {i}: {v1:#x} vs {v2:#x}): the two keys share their cell in all {DEPTH} rows")
+        return {"reproduced": len(fails) >= 4, "how": "CountMinLinear(width, 8): add key1 five times, query key2 that differs in one byte (probability of an all-row collision for an independent hash: width^-8)", "failed_clauses": fails[:4]}
     if cex["kind"] == "dependent-rows":
         a, b, W = cex["rows"][0], cex["rows"][1], cex["width"]
         from sketchnu import hashes
@@ -227,17 +292,20 @@ def main():
     pairs = [(0, 1, 16), (3, 7, 16)] if tier == "quick" else [(a, b, W) for (a, b) in ((0, 1), (0, 7), (3, 7), (2, 5), (1, 6)) for W in (2, 16, 61)]
     for (a, b, W) in pairs:
         obs.append(common.Ob(f"real fasthash64: rows {a},{b} not functionally dependent at width {W}", ob_independent, (a, b, W, tmo), hard_s=tmo / 1000 * 4 + 120, bounds={"rows": [a, b], "width": W, "keys": "8 symbolic bytes each"}))
+    sensL = (list(range(1, 18)) + [24, 31, 32, 33, 63, 64, 65, 127, 128, 129, 255, 256, 257, 264]) if tier == "quick" else (list(range(1, 131)) + list(range(255, 265)) + [511, 512, 513])
+    for L in sorted(sensL, reverse=True):
+        obs.append(common.Ob(f"real fasthash64: every byte of a {L}-byte key influences the hash", ob_sensitive, (L, tmo), hard_s=tmo / 1000 + 600, bounds={"key_len": L, "positions": "all", "byte values": "symbolic pair", "other bytes": "fixed pseudo-random context"}))
     results = common.run_obligations(obs, progress=os.environ.get("VERIF_VERBOSE") == "1")
     funcs = set()
     for r in results:
         funcs.update(r.get("funcs") or [])
     return common.finish(
         PID, tier, "model_checking", obs, results, t0=t0, funcs=funcs,
-        bounds={"seeds": f"depth {DEPTH}, width symbolic in 1..{W0} (the seed expressions do not depend on the table size), all 8 placing kernels", "independence_witnesses": [list(p) for p in pairs]},
-        stubs=["fasthash64 -> recorder of (key, seed term) in obligation (1); the REAL fasthash64 with precise bvmul in obligation (2)", "_log_counter -> identity (irrelevant to placement)"],
+        bounds={"seeds": f"depth {DEPTH}, width symbolic in 1..{W0} (the seed expressions do not depend on the table size), all 8 placing kernels", "independence_witnesses": [list(p) for p in pairs], "byte_sensitivity_key_lengths": sorted(sensL)},
+        stubs=["fasthash64 -> recorder of (key, seed term) in obligation (1); the REAL fasthash64 with precise bvmul in obligation (2)", "_log_counter -> identity (irrelevant to placement)", "64-bit multiplication uninterpreted in obligation (3) (sound for unsat; sat witnesses confirmed on the jitted hash)"],
         assumptions=["C11: fasthash64 is the published FastHash"],
-        outside=["the statistical exp(-depth) bound itself and uniformity/independence of FastHash's output distribution: NOT decided (not encodable); only the two necessary conditions above are claimed"],
-        explanation="necessary conditions for row independence: pairwise distinct per-row seeds for every width in every placing kernel; solver-exhibited key pairs separating rows on the real hash",
+        outside=["the statistical exp(-depth) bound itself and uniformity/independence of FastHash's output distribution: NOT decided (not encodable); only the necessary conditions above are claimed"],
+        explanation="necessary conditions for row independence: pairwise distinct per-row seeds for every width in every placing kernel; solver-exhibited key pairs separating rows on the real hash; every key byte influences the hash",
         technique="symbolic execution of Numba typed IR + z3: seed-term distinctness query over a symbolic width; satisfiability witnesses over the real FastHash (QF_BV, precise multiplication)")
 
 
